@@ -1,5 +1,7 @@
-Require Import Verif.Model.C06.
+Require Import Verif.Model.C06 Verif.Gen.Code_C06.
 Require Extraction.
 Require Import ExtrOcamlBasic.
-Definition run := run_C06.
+(* the history stream is answered by the generator translated from the source (= the reference model:
+   Proofs/C06_gen.v, run_generated_is_model) *)
+Definition run := run_C06_g gen_generator.
 Extraction "C06_model.ml" run.
